@@ -25,7 +25,7 @@ func exec(p cluster.Program, c *hx.Case) error {
 		return err
 	}
 	if st.SelfExits > 0 {
-		return hx.Errf("a worker stopped on its own in a run without injected failures")
+		return hx.Errf("a worker stopped on its own in a run without injected failures: %v", st.ExitReasons)
 	}
 	c.LabelIf(st.MaxKeyCalls >= 2, "concurrent-key-calls")
 	c.LabelIf(st.BarriersBothSides > 0, "barrier-with-records-on-both-sides")
